@@ -37,7 +37,42 @@ Definition is_call (e : event) : bool := ek e =? DVU_CALL.
 Definition sync_kind (k : Z) : bool := (k =? 1) || (k =? 2) || (k =? 3) || (k =? 6).
 Definition async_kind (k : Z) : bool := (k =? 4) || (k =? 5).
 
-Record cfg := { c_self : Z; c_ismain : bool; c_floor : Z }.
+(* the atomic sites of the queue's words the automaton expects (kind, memory order, word); Proofs/MainQT_sites.v proves that
+   they are, in program order, the sites src2v reads from the source of the functions involved *)
+Record msite := { ms_kind : akind; ms_order : morder; ms_off : Z; ms_sz : Z }.
+Definition skind (k : akind) : Z :=
+  match k with KLoad => DV_LOAD | KStore => DV_STORE | KXchg => DV_XCHG | KCas => DV_CAS | KCasWeak => DV_CASW
+             | KAdd => DV_ADD | KSub => DV_SUB | KAnd => DV_AND | KOr => DV_OR | KXor => DV_XOR | KFence => DV_FENCE end.
+Definition smo (o : morder) : Z :=
+  match o with Relaxed => MO_RELAXED | Consume => MO_CONSUME | Acquire => MO_ACQUIRE | Release => MO_RELEASE
+             | AcqRel => MO_ACQ_REL | SeqCst => MO_SEQ_CST end.
+Definition is_s (e : event) (s : msite) : bool :=
+  (ek e =? skind (ms_kind s)) && (eord e =? smo (ms_order s)) && (eobj e =? 0) && (eoff e =? ms_off s) && (esz e =? ms_sz s).
+Definition S_cas_acq := {| ms_kind := KCasWeak; ms_order := Acquire; ms_off := O_ST; ms_sz := 8 |}.
+Definition S_cas_rel := {| ms_kind := KCasWeak; ms_order := Release; ms_off := O_ST; ms_sz := 8 |}.
+Definition S_cas_rlx := {| ms_kind := KCasWeak; ms_order := Relaxed; ms_off := O_ST; ms_sz := 8 |}.
+Definition S_dirty_or := {| ms_kind := KOr; ms_order := Release; ms_off := O_ST; ms_sz := 8 |}.
+Definition S_dirty_xor := {| ms_kind := KXor; ms_order := Acquire; ms_off := O_ST; ms_sz := 8 |}.
+Definition S_flags := {| ms_kind := KLoad; ms_order := Relaxed; ms_off := O_FLAGS; ms_sz := 4 |}.
+Definition S_flags_clr := {| ms_kind := KAnd; ms_order := Relaxed; ms_off := O_FLAGS; ms_sz := 4 |}.
+Definition S_get_head := {| ms_kind := KLoad; ms_order := Acquire; ms_off := O_HEAD; ms_sz := 8 |}.
+Definition S_ld_state := {| ms_kind := KLoad; ms_order := Relaxed; ms_off := O_ST; ms_sz := 8 |}.
+Definition S_ld_tq := {| ms_kind := KLoad; ms_order := Relaxed; ms_off := O_TQ; ms_sz := 8 |}.
+Definition S_pop_cas := {| ms_kind := KCas; ms_order := Release; ms_off := O_TAIL; ms_sz := 8 |}.
+Definition S_probe := {| ms_kind := KLoad; ms_order := SeqCst; ms_off := O_TAIL; ms_sz := 8 |}.
+Definition S_reset := {| ms_kind := KAnd; ms_order := Relaxed; ms_off := O_ST; ms_sz := 8 |}.
+Definition S_spin_head := {| ms_kind := KLoad; ms_order := Relaxed; ms_off := O_HEAD; ms_sz := 8 |}.
+Definition S_st_head := {| ms_kind := KStore; ms_order := Relaxed; ms_off := O_HEAD; ms_sz := 8 |}.
+Definition S_st_next := {| ms_kind := KStore; ms_order := Relaxed; ms_off := O_NEXT; ms_sz := 8 |}.
+Definition S_xchg_tail := {| ms_kind := KXchg; ms_order := Release; ms_off := O_TAIL; ms_sz := 8 |}.
+(* sites on other objects: the do_next of an item / context, the dte_value of a synchronous caller's context *)
+Definition S_item_next_st : akind * morder := (KStore, Relaxed).
+Definition S_item_next_ld : akind * morder := (KLoad, Acquire).
+Definition S_dte_sub : akind * morder := (KSub, Acquire).
+Definition S_dte_ld : akind * morder := (KLoad, Acquire).
+Definition S_dte_add : akind * morder := (KAdd, Release).
+
+Record cfg := { c_self : Z; c_ismain : bool; c_floor : Z; c_main : Z (* lock value of the bound thread *) }.
 
 Inductive tcont := TRet | TWait | TLoop | TExit | TVia.   (* after push + wakeup: return / park / back in the drain loop / end of drain /
                                                               back in a call that goes through a queue targeting the main queue *)
@@ -52,8 +87,9 @@ Inductive tpc :=
 | TW_probe (k : tcont)
 | TW_mload (k : tcont)
 | TW_mbody (k : tcont) (old : Z)
-| TW_poke (k : tcont)
+| TW_poke (k : tcont) (old : Z)
 | TW_reset (k : tcont)
+| TW_owner (k : tcont)
 | TW_probe2 (k : tcont)
 | TL_probe (k : tcont) (d : bool)
 | TL_wload (k : tcont) (d : bool)
@@ -89,19 +125,19 @@ Definition done (k : tcont) : tpc :=
 
 (* the first load of dq_atomic_flags of _dispatch_main_queue_wakeup decides the way *)
 Definition wake_entry (k : tcont) (d : bool) (e : event) : option tpc :=
-  if is_q e DV_LOAD MO_RELAXED O_FLAGS 4
+  if is_s e S_flags
   then Some (if nz (Z.land (ea e) DQF_THREAD_BOUND) then TW_flags2 k d else TL_probe k d)
   else None.
 
 Definition lock_entry (c : cfg) (floor : Z) (e : event) : option tpc :=
-  if is_q e DV_LOAD MO_RELAXED O_ST 8 then Some (TK_lock floor (ea e)) else None.
+  if is_s e S_ld_state then Some (TK_lock floor (ea e)) else None.
 
 Definition after_loop_owned (o : Z) : Z := Z.lor (Z.land o (ENQUEUED + 274877906944)) SERIAL_OWNED.
 
 (* after the plain read of dq_items_tail in the lane drain: _dispatch_queue_get_head, or the unlock's first load *)
 Definition tail_step (o o' : Z) (e : event) : option tpc :=
-  if is_q e DV_LOAD MO_ACQUIRE O_HEAD 8 then Some (if ea e =? 0 then TK_headwait o else TK_state o)
-  else if is_q e DV_LOAD MO_RELAXED O_ST 8 then Some (TK_unlock o' (ea e))
+  if is_s e S_get_head then Some (if ea e =? 0 then TK_headwait o else TK_state o)
+  else if is_s e S_ld_state then Some (TK_unlock o' (ea e))
   else None.
 
 
@@ -109,7 +145,7 @@ Definition tail_step (o o' : Z) (e : event) : option tpc :=
    give-up (DIRTY seen: xor, then dx_wakeup(BARRIER_COMPLETE)) *)
 Definition tstep_cbody (tgt : bool) (old : Z) (e : event) : option tpc :=
   let body := fun q => class_barrier_complete_loop 0 q 0 (if tgt then 1 else 0) SERIAL_OWNED old (if tgt then ENQUEUED else 0) in
-  if is_q e DV_CASW MO_RELEASE O_ST 8
+  if is_s e S_cas_rel
   then (if ex_commit body (eb e)
         then (if eok e =? 1
               then (if ea e =? old
@@ -117,7 +153,7 @@ Definition tstep_cbody (tgt : bool) (old : Z) (e : event) : option tpc :=
                     else None)
               else Some (TC_cbody tgt (ea e)))
         else None)
-  else if is_q e DV_XOR MO_ACQUIRE O_ST 8 && (eb e =? DIRTY) && ex_giveup body then Some TC_flags
+  else if is_s e S_dirty_xor && (eb e =? DIRTY) && ex_giveup body then Some TC_flags
   else None.
 
 Definition tstep0 (c : cfg) (p : tpc) (e : event) : option tpc :=
@@ -136,49 +172,50 @@ Definition tstep0 (c : cfg) (p : tpc) (e : event) : option tpc :=
   (* ---- _dispatch_queue_push_item ---- *)
   | TP_xchg k =>
       if is_stk e DV_STORE 8 && (eobj e =? c_self c) && (eb e =? 0) then Some (TP_xchg k)     (* context->do_next = NULL *)
-      else if is_q e DV_XCHG MO_RELEASE O_TAIL 8 && negb (eb e =? 0) then Some (TP_link k (ea e) (eb e))
+      else if is_s e S_xchg_tail && negb (eb e =? 0) then Some (TP_link k (ea e) (eb e))
       else None
   | TP_link k prev item =>
       if prev =? 0
-      then (if is_q e DV_STORE MO_RELAXED O_HEAD 8 && (eb e =? item) then Some (TP_after k true) else None)
+      then (if is_s e S_st_head && (eb e =? item) then Some (TP_after k true) else None)
       else (if is_stk e DV_STORE 8 && (eb e =? item) then Some (TP_after k false)   (* prev lives on a tracked stack *)
             else None)                                                              (* otherwise the link is not observed: eps *)
   | TP_after k we => wake_entry k we e
   (* ---- _dispatch_runloop_queue_wakeup ---- *)
   | TW_flags2 k d =>
-      if is_q e DV_LOAD MO_RELAXED O_FLAGS 4 then Some (if d then TW_or k else TW_probe k) else None
+      if is_s e S_flags then Some (if d then TW_or k else TW_probe k) else None
   | TW_or k =>
       match runloop_wakeup_dirty_op 0 with
-      | Commit v _ => if is_q e DV_OR MO_RELEASE O_ST 8 && (eb e =? v) then Some (TW_probe k) else None
+      | Commit v _ => if is_s e S_dirty_or && (eb e =? v) then Some (TW_probe k) else None
       | _ => None
       end
   | TW_probe k =>
-      if is_q e DV_LOAD MO_SEQ_CST O_TAIL 8 then Some (if ea e =? 0 then TW_reset k else TW_mload k) else None
-  | TW_mload k => if is_q e DV_LOAD MO_RELAXED O_ST 8 then Some (TW_mbody k (ea e)) else None
+      if is_s e S_probe then Some (if ea e =? 0 then TW_reset k else TW_mload k) else None
+  | TW_mload k => if is_s e S_ld_state then Some (TW_mbody k (ea e)) else None
   | TW_mbody k old =>
-      if is_q e DV_CASW MO_RELAXED O_ST 8
+      if is_s e S_cas_rlx
       then (if ex_commit (fun q => runloop_queue_poke_loop 0 q 0 old) (eb e)
-            then (if eok e =? 1 then (if ea e =? old then Some (TW_poke k) else None) else Some (TW_mbody k (ea e)))
+            then (if eok e =? 1 then (if ea e =? old then Some (TW_poke k old) else None) else Some (TW_mbody k (ea e)))
             else None)
       else if is_mark e 5 && ex_giveup (fun q => runloop_queue_poke_loop 0 q 0 old) then Some (done k)
       else None
-  | TW_poke k => if is_mark e 5 then Some (done k) else None
+  | TW_poke k old => if is_mark e 5 then Some (done k) else None
   | TW_reset k =>
       match runloop_reset_max_qos_op QOS_BITS 18446744073709551615 with
       | Commit mask _ =>
-          if is_q e DV_AND MO_RELAXED O_ST 8 && (eb e =? mask)
-          then Some (if f_dq_state_max_qos (ea e) =? 0 then done k else TW_probe2 k) else None
+          if is_s e S_reset && (eb e =? mask)
+          then Some (if f_dq_state_max_qos (ea e) =? 0 then done k else TW_owner k) else None
       | _ => None
       end
+  | TW_owner k => if is_s e S_ld_state then Some (TW_probe2 k) else None     (* DISPATCH_QUEUE_DRAIN_OWNER(dq) *)
   | TW_probe2 k =>
-      if is_q e DV_LOAD MO_SEQ_CST O_TAIL 8 then Some (if ea e =? 0 then done k else TW_mload k) else None
+      if is_s e S_probe then Some (if ea e =? 0 then done k else TW_mload k) else None
   (* ---- not thread-bound any more: _dispatch_lane_wakeup / _dispatch_queue_wakeup ---- *)
   | TL_probe k d =>
-      if is_q e DV_LOAD MO_SEQ_CST O_TAIL 8 then Some (if ea e =? 0 then done k else TL_wload k d) else None
-  | TL_wload k d => if is_q e DV_LOAD MO_RELAXED O_ST 8 then Some (TL_wbody k d (ea e)) else None
+      if is_s e S_probe then Some (if ea e =? 0 then done k else TL_wload k d) else None
+  | TL_wload k d => if is_s e S_ld_state then Some (TL_wbody k d (ea e)) else None
   | TL_wbody k d old =>
       let body := fun q => wakeup_loop 0 q (if d then 2 else 0) 1 old ENQUEUED in
-      if is_q e DV_CASW MO_RELEASE O_ST 8
+      if is_s e S_cas_rel
       then (if ex_commit body (eb e) && (negb d || nz (f_dq_state_is_dirty (eb e)))
             then (if eok e =? 1
                   then (if ea e =? old
@@ -187,8 +224,8 @@ Definition tstep0 (c : cfg) (p : tpc) (e : event) : option tpc :=
                   else Some (TL_wbody k d (ea e)))
             else None)
       else None                                                             (* give-up: eps *)
-  | TL_tq k => if is_q e DV_LOAD MO_RELAXED O_TQ 8 then Some (TL_next k) else None
-  | TL_next k => if is_q e DV_STORE MO_RELAXED O_NEXT 8 && (eb e =? 0) then Some (done k) else None
+  | TL_tq k => if is_s e S_ld_tq then Some (TL_next k) else None
+  | TL_next k => if is_s e S_st_next && (eb e =? 0) then Some (done k) else None
   | TDone k =>
       match k with
       | TRet => if ek e =? DVU_RET then Some TIdle else None
@@ -200,35 +237,35 @@ Definition tstep0 (c : cfg) (p : tpc) (e : event) : option tpc :=
           onto the main queue (also on behalf of other callers: redirected waiters), the caller's own wait ---- *)
   | TV =>
       if ek e =? DVU_RET then Some TIdle
-      else if is_q e DV_LOAD MO_RELAXED O_ST 8 then Some TV
+      else if is_s e S_ld_state then Some TV
       else if is_stk e DV_STORE 8 || is_stk e DV_LOAD 8 then Some TV     (* the targeting queue's own list, through contexts on tracked stacks *)
-      else if is_q e DV_XCHG MO_RELEASE O_TAIL 8 && negb (eb e =? 0) then Some (TP_link TVia (ea e) (eb e))
-      else if is_stk e DV_SUB 4 && (eobj e =? c_self c) && (eord e =? MO_ACQUIRE) && (eb e =? 1)
+      else if is_s e S_xchg_tail && negb (eb e =? 0) then Some (TP_link TVia (ea e) (eb e))
+      else if is_stk e (skind (fst S_dte_sub)) 4 && (eobj e =? c_self c) && (eord e =? smo (snd S_dte_sub)) && (eb e =? 1)
       then Some (if (ea e - 1) mod 4294967296 =? 0 then TV else TV_load)
       else None
   | TV_load =>
-      if is_stk e DV_LOAD 4 && (eobj e =? c_self c) && (eord e =? MO_ACQUIRE)
+      if is_stk e (skind (fst S_dte_ld)) 4 && (eobj e =? c_self c) && (eord e =? smo (snd S_dte_ld))
       then (if ea e =? 0 then Some TV else if ea e =? MAXV then Some TV_futex else None) else None
   | TV_futex => if (ek e =? DV_FUTEX_WAIT) && (eobj e =? c_self c) && (ea e =? MAXV) then Some TV_sleep else None
   | TV_sleep => if (ek e =? DV_FUTEX_WAIT_RET) && (eobj e =? c_self c) then Some TV_load else None
   (* ---- dispatch_sync_f / dispatch_async_and_wait_f ---- *)
-  | TS_aaw => if is_q e DV_LOAD MO_RELAXED O_ST 8 then Some TS_fast else None
+  | TS_aaw => if is_s e S_ld_state then Some TS_fast else None
   | TS_fast =>
-      if is_q e DV_LOAD MO_RELAXED O_ST 8
+      if is_s e S_ld_state
       then (match f_dispatch_queue_try_acquire_barrier_sync_and_suspend 0 (c_self c) 0 1 (ea e) with
             | NoCommit _ _ => Some TS_prep
             | _ => None
             end)
       else None
   | TS_prep =>
-      if is_q e DV_LOAD MO_RELAXED O_ST 8
+      if is_s e S_ld_state
       then (match wait_prepare_loop 0 (ea e) with NoCommit _ _ => Some (TP_xchg TWait) | _ => None end)
       else None
   | TS_dec =>
-      if is_stk e DV_SUB 4 && (eobj e =? c_self c) && (eord e =? MO_ACQUIRE) && (eb e =? 1)
+      if is_stk e (skind (fst S_dte_sub)) 4 && (eobj e =? c_self c) && (eord e =? smo (snd S_dte_sub)) && (eb e =? 1)
       then Some (if (ea e - 1) mod 4294967296 =? 0 then TS_ret else TS_load) else None
   | TS_load =>
-      if is_stk e DV_LOAD 4 && (eobj e =? c_self c) && (eord e =? MO_ACQUIRE)
+      if is_stk e (skind (fst S_dte_ld)) 4 && (eobj e =? c_self c) && (eord e =? smo (snd S_dte_ld))
       then (if ea e =? 0 then Some TS_ret else if ea e =? MAXV then Some TS_futex else None) else None
   | TS_futex => if (ek e =? DV_FUTEX_WAIT) && (eobj e =? c_self c) && (ea e =? MAXV) then Some TS_sleep else None
   | TS_sleep => if (ek e =? DV_FUTEX_WAIT_RET) && (eobj e =? c_self c) then Some TS_load else None
@@ -236,79 +273,79 @@ Definition tstep0 (c : cfg) (p : tpc) (e : event) : option tpc :=
   (* ---- _dispatch_main_queue_callback_4CF on the bound thread ---- *)
   | TB_enter =>
       if is_mark e 2 then Some TIdle                                     (* dq_items_tail == NULL: nothing to drain *)
-      else if is_q e DV_LOAD MO_RELAXED O_FLAGS 4 && nz (Z.land (ea e) DQF_THREAD_BOUND) then Some TB_state
+      else if is_s e S_flags && nz (Z.land (ea e) DQF_THREAD_BOUND) then Some TB_state
       else None
   | TB_state =>
-      if is_q e DV_LOAD MO_RELAXED O_ST 8 && nz (f_dq_state_drain_locked_by (ea e) (c_self c)) then Some TB_head else None
+      if is_s e S_ld_state && nz (f_dq_state_drain_locked_by (ea e) (c_self c)) then Some TB_head else None
   | TB_head =>
-      if is_q e DV_LOAD MO_ACQUIRE O_HEAD 8 then Some (if ea e =? 0 then TB_headwait else TB_clr) else None
+      if is_s e S_get_head then Some (if ea e =? 0 then TB_headwait else TB_clr) else None
   | TB_headwait =>
-      if is_q e DV_LOAD MO_RELAXED O_HEAD 8 then Some (if ea e =? 0 then TB_headwait else TB_clr) else None
-  | TB_clr => if is_q e DV_STORE MO_RELAXED O_HEAD 8 && (eb e =? 0) then Some TB_snap else None
-  | TB_snap => if is_q e DV_XCHG MO_RELEASE O_TAIL 8 && (eb e =? 0) && negb (ea e =? 0) then Some TB_loop else None
+      if is_s e S_spin_head then Some (if ea e =? 0 then TB_headwait else TB_clr) else None
+  | TB_clr => if is_s e S_st_head && (eb e =? 0) then Some TB_snap else None
+  | TB_snap => if is_s e S_xchg_tail && (eb e =? 0) && negb (ea e =? 0) then Some TB_loop else None
   | TB_loop =>
       if is_stk e DV_LOAD 8 then Some TB_loop                           (* os_mpsc_get_next on a stack-resident context *)
       else if (ek e =? DVU_CALLOUT_BEGIN) then Some (TB_in (eb e))
-      else if is_q e DV_XCHG MO_RELEASE O_TAIL 8 && negb (eb e =? 0) then Some (TP_link TLoop (ea e) (eb e))  (* an item re-enqueues a queue *)
+      else if is_s e S_xchg_tail && negb (eb e =? 0) then Some (TP_link TLoop (ea e) (eb e))  (* an item re-enqueues a queue *)
       else wake_entry TExit false e                                      (* dx_wakeup(dq, 0, 0) at the end of the drain *)
   | TB_in w =>
       if is_mark e 4 then Some (TB_in w)                                 (* nested run loop: read; its callback returns at once *)
       else if (ek e =? DVU_CALLOUT_END) && (eb e =? w) then Some (if w =? 0 then TB_loop else TB_sig w)
       else None
   | TB_sig w =>
-      if is_stk e DV_ADD 4 && (eobj e =? w) && (eord e =? MO_RELEASE) && (eb e =? 1)
+      if is_stk e (skind (fst S_dte_add)) 4 && (eobj e =? w) && (eord e =? smo (snd S_dte_add)) && (eb e =? 1)
       then Some (if ea e =? 0 then TB_loop else TB_fwake w) else None
   | TB_fwake w => if (ek e =? DV_FUTEX_WAKE) && (eobj e =? w) then Some TB_loop else None
   (* ---- _dispatch_queue_cleanup2 ---- *)
-  | TC_load => if is_q e DV_LOAD MO_RELAXED O_ST 8 then Some (TC_body (ea e)) else None
+  | TC_load => if is_s e S_ld_state then Some (TC_body (ea e)) else None
   | TC_body old =>
       match queue_cleanup2_loop old with
       | Commit new _ =>
-          if is_q e DV_CASW MO_ACQUIRE O_ST 8 && (eb e =? new)
+          if is_s e S_cas_acq && (eb e =? new)
           then (if eok e =? 1 then (if ea e =? old then Some TC_clr else None) else Some (TC_body (ea e))) else None
       | _ => None
       end
   | TC_clr =>
-      if is_q e DV_AND MO_RELAXED O_FLAGS 4 && (eb e =? 4294967295 - DQF_THREAD_BOUND) && nz (Z.land (ea e) DQF_THREAD_BOUND)
+      if is_s e S_flags_clr && (eb e =? 4294967295 - DQF_THREAD_BOUND) && nz (Z.land (ea e) DQF_THREAD_BOUND)
       then Some TC_tail else None
-  | TC_tail => if is_q e DV_LOAD MO_RELAXED O_ST 8 then Some (TC_t2 (ea e)) else None
+  | TC_tail => if is_s e S_ld_state then Some (TC_t2 (ea e)) else None
   | TC_t2 old =>
       (* that load was DISPATCH_QUEUE_IS_SUSPENDED (list not empty): _dispatch_queue_get_head follows;
          or it was the first load of the class_barrier_complete loop (list empty) *)
-      if is_q e DV_LOAD MO_ACQUIRE O_HEAD 8 && negb (nz (f_dq_state_is_suspended old))
+      if is_s e S_get_head && negb (nz (f_dq_state_is_suspended old))
       then Some (if ea e =? 0 then TC_headwait else TC_cload true)
       else None                                                             (* eps: it was the loop's own load *)
   | TC_headwait =>
-      if is_q e DV_LOAD MO_RELAXED O_HEAD 8 then Some (if ea e =? 0 then TC_headwait else TC_cload true) else None
-  | TC_cload tgt => if is_q e DV_LOAD MO_RELAXED O_ST 8 then Some (TC_cbody tgt (ea e)) else None
+      if is_s e S_spin_head then Some (if ea e =? 0 then TC_headwait else TC_cload true) else None
+  | TC_cload tgt => if is_s e S_ld_state then Some (TC_cbody tgt (ea e)) else None
   | TC_cbody tgt old => tstep_cbody tgt old e
   | TC_flags =>
-      if is_q e DV_LOAD MO_RELAXED O_FLAGS 4 && negb (nz (Z.land (ea e) DQF_THREAD_BOUND)) then Some TC_tail else None
-  | TGone_next => if is_q e DV_STORE MO_RELAXED O_NEXT 8 && (eb e =? 0) then Some TGone else None
+      if is_s e S_flags && negb (nz (Z.land (ea e) DQF_THREAD_BOUND)) then Some TC_tail else None
+  | TGone_next => if is_s e S_st_next && (eb e =? 0) then Some TGone else None
   | TGone => None
   (* ---- a worker drains the lane: _dispatch_lane_invoke ---- *)
   | TK_lock floor old =>
       match f_dispatch_queue_drain_try_lock 0 0 1 (c_self c) floor old 0 with
       | Restart _ => lock_entry c (f_dq_state_max_qos old) e
       | Commit new owned =>
-          if is_q e DV_CASW MO_ACQUIRE O_ST 8 && (eb e =? new)
+          if is_s e S_cas_acq && (eb e =? new)
           then (if eok e =? 1 then (if ea e =? old then Some (if owned =? 0 then TIdle else TK_flags owned) else None)
                 else Some (TK_lock floor (ea e)))
           else None
       | _ => None
       end
-  | TK_flags o => if is_q e DV_LOAD MO_RELAXED O_FLAGS 4 then Some (TK_tail o o) else None
+  | TK_flags o => if is_s e S_flags then Some (TK_tail o o) else None
   | TK_tail o o' => tail_step o o' e
   | TK_headwait o =>
-      if is_q e DV_LOAD MO_RELAXED O_HEAD 8 then Some (if ea e =? 0 then TK_headwait o else TK_state o) else None
+      if is_s e S_spin_head then Some (if ea e =? 0 then TK_headwait o else TK_state o) else None
   | TK_state o =>
-      if is_q e DV_LOAD MO_RELAXED O_ST 8 && negb (nz (f_dq_state_is_suspended (ea e))) then Some (TK_pop o) else None
+      if is_s e S_ld_state && negb (nz (f_dq_state_is_suspended (ea e))) then Some (TK_pop o) else None
   | TK_pop o =>
-      if is_q e DV_STORE MO_RELAXED O_HEAD 8 then Some (if eb e =? 0 then TK_cas o else TK_run o true) else None
+      if is_s e S_st_head then Some (if eb e =? 0 then TK_cas o else TK_run o true) else None
   | TK_cas o =>
-      if is_q e DV_CAS MO_RELEASE O_TAIL 8 && (eb e =? 0)
+      if is_s e S_pop_cas && (eb e =? 0)
       then Some (if eok e =? 1 then TK_run o false else TK_pop2 o) else None
-  | TK_pop2 o => if is_q e DV_STORE MO_RELAXED O_HEAD 8 && negb (eb e =? 0) then Some (TK_run o true) else None
+  | TK_pop2 o => if is_s e S_st_head && negb (eb e =? 0) then Some (TK_run o true) else None
   | TK_run o more => if (ek e =? DVU_CALLOUT_BEGIN) && (eb e =? 0) then Some (TK_in o more) else None
   | TK_in o more =>
       if (ek e =? DVU_CALLOUT_END) && (eb e =? 0)
@@ -316,16 +353,23 @@ Definition tstep0 (c : cfg) (p : tpc) (e : event) : option tpc :=
   | TK_unlock o old =>
       match f_dispatch_queue_drain_try_unlock 0 o 1 old with
       | Commit new _ =>
-          if is_q e DV_CASW MO_RELEASE O_ST 8 && (eb e =? new) && negb (nz (f_dq_state_is_dirty old))
+          if is_s e S_cas_rel && (eb e =? new) && negb (nz (f_dq_state_is_dirty old))
           then (if eok e =? 1 then (if ea e =? old then Some TIdle else None) else Some (TK_unlock o (ea e))) else None
-      | NoCommit _ _ => if is_q e DV_XOR MO_ACQUIRE O_ST 8 && (eb e =? DIRTY) then Some (TK_tail o o) else None
+      | NoCommit _ _ => if is_s e S_dirty_xor && (eb e =? DIRTY) then Some (TK_tail o o) else None
       | _ => None
       end
   end.
 
 (* silent moves: plain (unobservable) accesses and give-ups of rmw loops *)
-Definition eps (p : tpc) : option tpc :=
+(* the handle is disposed only after cleanup2 has released the lane: a stale thread-bound wakeup that observed a word no
+   longer owned by the bound thread may find the handle invalid and return without writing it *)
+Definition released (c : cfg) (old : Z) : bool := negb (nz (f_dq_state_drain_locked_by old (c_main c))).
+
+Definition eps (c : cfg) (p : tpc) : option tpc :=
   match p with
+  | TW_mbody k old =>
+      if released c old && ex_giveup (fun q => runloop_queue_poke_loop 0 q 0 old) then Some (done k) else None
+  | TW_poke k old => if released c old then Some (done k) else None
   | TP_link k prev item => if prev =? 0 then None else Some (TP_after k false)
   | TP_after k false => Some (done k)                      (* _dispatch_queue_need_override said no *)
   | TL_wbody k d old =>
@@ -338,11 +382,11 @@ Definition tstep (c : cfg) (p : tpc) (e : event) : option tpc :=
   match tstep0 c p e with
   | Some p' => Some p'
   | None =>
-      match eps p with
+      match eps c p with
       | Some p1 =>
           match tstep0 c p1 e with
           | Some p' => Some p'
-          | None => match eps p1 with Some p2 => tstep0 c p2 e | None => None end
+          | None => match eps c p1 with Some p2 => tstep0 c p2 e | None => None end
           end
       | None => None
       end
@@ -359,8 +403,8 @@ Definition tag (p : tpc) (e : event) (p' : tpc) : Z :=
   | TW_probe _, TW_reset _ => 7                                         (* probe saw an empty list: no poke *)
   | TW_probe _, TW_mload _ => 8
   | TW_mbody _ _, TW_mbody _ _ => 9                                     (* poke loop compare-exchange failed *)
-  | TW_mbody _ _, TW_poke _ => 10                                       (* poke loop merged a QoS *)
-  | TW_reset _, TW_probe2 _ => 11                                       (* reset cleared a QoS: probe again *)
+  | TW_mbody _ _, TW_poke _ _ => 10                                       (* poke loop merged a QoS *)
+  | TW_reset _, TW_owner _ => 11                                       (* reset cleared a QoS: probe again *)
   | TL_probe _ _, TL_wload _ _ => 12
   | TL_wbody _ _ _, TL_tq _ => 13                                       (* lane wakeup set ENQUEUED *)
   | TL_wbody _ _ _, TL_wbody _ _ _ => 14                                (* lane wakeup compare-exchange failed *)
@@ -410,6 +454,6 @@ Fixpoint trun (c : cfg) (p : tpc) (tr : list event) (i : Z) (cnt : list Z) : tpc
   end.
 Definition tpc_idle (p : tpc) : Z := match p with TIdle | TGone => 1 | _ => 0 end.
 (* (index of the first rejected event or -1, 1 if the thread ended outside any call, how often each branch fired) *)
-Definition conform (self ismain floor : Z) (tr : list event) : list Z :=
-  let c := {| c_self := self; c_ismain := negb (ismain =? 0); c_floor := floor |} in
+Definition conform (self ismain floor main : Z) (tr : list event) : list Z :=
+  let c := {| c_self := self; c_ismain := negb (ismain =? 0); c_floor := floor; c_main := main |} in
   let '(p, i, cnt) := trun c TIdle tr 0 (repeat 0 NTAGS) in i :: tpc_idle p :: cnt.
